@@ -22,9 +22,10 @@ func init() {
 			"list shuffled. Oracle: ineligible inputs + ancestor of every dense group + members of non-dense groups, as a set; no duplicates; region(out)==region(in) by unit cells; Merge(out)==out; " +
 			"MergeSpatialIds on h==v lists. Non-trivial = some group is dense or has >= 2 members; distinct by (list, targets). Includes all 256 subsets of T's 8 children for T.F in {-2,-1,0,1}.",
 		Assume: []string{"reference: group by floor ancestor (x>>d, y>>d, f>>d); dense iff the union of members' unit cells has 4^dh*2^dv elements", "zoom spread of a list <= 3 levels (documented memory bound of the function)"},
-		N:      func(t string) int64 { return c04Directed + tierN(80_000, 1_000_000)(t) // (thorough: an hour at 1.5 M cases; the first million are the same cases) },
-		Floor:  tierN(500, 5000),
-		Run:    runC04,
+		// thorough: 1.0 M cases (1.5 M took an hour; case content is a function of the index, so this is a prefix of it)
+		N:     func(t string) int64 { return c04Directed + tierN(80_000, 1_000_000)(t) },
+		Floor: tierN(500, 5000),
+		Run:   runC04,
 		Exhaustive: func(string) []string {
 			return []string{"all 256 subsets of the 8 children (h+1,v+1) of a target voxel, for target f in {-2,-1,0,1}"}
 		},
